@@ -50,52 +50,76 @@ func (e *Env) REntry() {
 	// helper chains
 	pkg := e.Prog.Pkg(load.PkgDecorator)
 	c := e.Sib.Ctx[load.PkgDecorator]
+	// reach: same-package functions reachable from fd through static calls (depth-bounded)
+	decl := map[*types.Func]*ast.FuncDecl{}
+	for _, d := range load.AllFuncDecls(pkg) {
+		if fn, ok := pkg.TypesInfo.Defs[d.Name].(*types.Func); ok {
+			decl[fn] = d
+		}
+	}
+	label := func(fn *types.Func) string {
+		if sig, ok := fn.Type().(*types.Signature); ok && sig.Recv() != nil {
+			_, n := namedOf(sig.Recv().Type())
+			return n + "." + fn.Name()
+		}
+		return fn.Name()
+	}
+	reach := func(fd *ast.FuncDecl) map[string]bool {
+		seen := map[*types.Func]bool{}
+		out := map[string]bool{}
+		var visit func(d *ast.FuncDecl, depth int)
+		visit = func(d *ast.FuncDecl, depth int) {
+			if d == nil || d.Body == nil || depth > 4 {
+				return
+			}
+			ast.Inspect(d.Body, func(nd ast.Node) bool {
+				if call, ok := nd.(*ast.CallExpr); ok {
+					if fn := c.Callee(call); fn != nil && fn.Pkg() != nil && fn.Pkg().Path() == load.PkgDecorator {
+						fn = fn.Origin()
+						out[label(fn)] = true
+						if !seen[fn] {
+							seen[fn] = true
+							visit(decl[fn], depth+1)
+						}
+					}
+				}
+				return true
+			})
+		}
+		visit(fd, 0)
+		return out
+	}
 	chain := func(recv, name string, wantCallee ...string) {
 		fd := load.FuncDecl(pkg, recv, name)
-		label := name
+		lbl := name
 		if recv != "" {
-			label = recv + "." + name
+			lbl = recv + "." + name
 		}
 		if fd == nil || fd.Body == nil {
-			e.Run.Violation("R-ENTRY", "entry point "+label+" exists", "", "missing")
+			e.Run.Violation("R-ENTRY", "entry point "+lbl+" exists", "", "missing")
 			return
 		}
-		got := map[string]bool{}
-		ast.Inspect(fd.Body, func(nd ast.Node) bool {
-			if call, ok := nd.(*ast.CallExpr); ok {
-				if fn := c.Callee(call); fn != nil && fn.Pkg() != nil && fn.Pkg().Path() == load.PkgDecorator {
-					got[fn.Name()] = true
-				}
-			}
-			return true
-		})
+		got := reach(fd)
 		ok := true
 		for _, w := range wantCallee {
 			if !got[w] {
 				ok = false
 			}
 		}
-		e.Run.Check("R-ENTRY", "entry point "+label+" reaches "+strings.Join(wantCallee, ", "), e.Prog.Pos(fd.Pos()), ok, fmt.Sprintf("calls into the package: %v", sortedKeys(got)))
+		e.Run.Check("R-ENTRY", "entry point "+lbl+" reaches "+strings.Join(wantCallee, ", "), e.Prog.Pos(fd.Pos()), ok, fmt.Sprintf("reaches, within the package: %v", sortedKeys(got)))
 	}
-	chain("", "Parse", "NewDecorator", "Parse")
-	chain("", "ParseFile", "NewDecorator", "ParseFile")
-	chain("", "ParseDir", "NewDecorator", "ParseDir")
-	chain("", "Decorate", "NewDecorator", "DecorateNode")
-	chain("", "DecorateFile", "NewDecorator", "DecorateFile")
-	chain("Decorator", "Parse", "ParseFile")
-	chain("Decorator", "ParseFile", "DecorateFile")
-	chain("Decorator", "ParseDir", "DecorateNode")
-	chain("Decorator", "DecorateFile", "DecorateNode")
-	chain("Decorator", "DecorateNode", "newFileDecorator", "fragment", "link", "decorateNode")
-	chain("", "Print", "Fprint")
-	chain("", "Fprint", "RestoreFile")
-	chain("", "RestoreFile", "NewRestorer", "RestoreFile")
-	chain("Restorer", "Print", "Fprint")
-	chain("Restorer", "Fprint", "RestoreFile")
-	chain("Restorer", "RestoreFile", "FileRestorer", "RestoreFile")
-	chain("FileRestorer", "Print", "Fprint")
-	chain("FileRestorer", "Fprint", "RestoreFile")
-	chain("FileRestorer", "RestoreFile", "updateImports", "restoreNode", "fileSize")
+	// every decorate entry point ends in Decorator.DecorateNode, which runs the whole pipeline;
+	// every print entry point ends in FileRestorer.RestoreFile, which runs the whole restore
+	for _, ep := range [][2]string{{"", "Parse"}, {"", "ParseFile"}, {"", "ParseDir"}, {"", "Decorate"}, {"", "DecorateFile"},
+		{"Decorator", "Parse"}, {"Decorator", "ParseFile"}, {"Decorator", "ParseDir"}, {"Decorator", "DecorateFile"}} {
+		chain(ep[0], ep[1], "Decorator.DecorateNode")
+	}
+	chain("Decorator", "DecorateNode", "Decorator.newFileDecorator", "fileDecorator.fragment", "fileDecorator.link", "fileDecorator.decorateNode")
+	for _, ep := range [][2]string{{"", "Print"}, {"", "Fprint"}, {"", "RestoreFile"}, {"Restorer", "Print"}, {"Restorer", "Fprint"}, {"Restorer", "RestoreFile"},
+		{"FileRestorer", "Print"}, {"FileRestorer", "Fprint"}} {
+		chain(ep[0], ep[1], "FileRestorer.RestoreFile")
+	}
+	chain("FileRestorer", "RestoreFile", "FileRestorer.updateImports", "FileRestorer.restoreNode", "FileRestorer.fileSize")
 }
 
 // modeHasParseCommentsAt: the mode operand has the ParseComments bit — written at the call, or
